@@ -329,6 +329,166 @@ theorem concat_independent {n cls : Nat} {s1 s2 : MolO} (b1 : Below n s1) (b2 : 
     · exact this.1 h'
     · exact this.2 h'
 
+/-! ## copy constructors of any class, with keyword overrides -/
+
+/-- what `Cls2(src, **keywords)` documents, on observations: atoms (and bonds, if the target class has bonds) of the
+source; name / charge / mult by `keyword or source value`; attributes = the source's merged with the `attrib=`
+dictionary; every array of the target class = the keyword if given, else the source's array if the classes are of the
+same family, else the default -/
+def castObs (cls' : Nat) (ov : Override) (o : MolObs) : MolObs :=
+  { cls := cls', scalars := ovScalars ov.scalars o.scalars, attrib := o.attrib.append ov.attrib.strip,
+    atoms := o.atoms, bonds := if hasBondsCls cls' then o.bonds else [],
+    arrays := (List.range (slotsOf cls')).map (fun j => ovArrayData o.cls cls' ov o.arrays j) }
+
+/-- **faithful** for every copy constructor call `Cls2(src, name=…, charge=…, mult=…, attrib=…, coords=…,
+atomic_charges=…, weights=…)`: the result is the source as far as the classes go, with the overrides applied
+to the copy. -/
+theorem copyAs_faithful {n cls' : Nat} {src : MolO} (hw : WF src) (ov : Override) :
+    observe (copyAs repaired n cls' ov src) = castObs cls' ov (observe src) := by
+  have h1 : observe (copyAs repaired n cls' ov src) = castObs cls' ov (observe (deepCopy repaired n src)) := by
+    simp only [observe, copyAs, castObs, strip_append, List.map_map]
+    have hc : (deepCopy repaired n src).cls = src.cls := rfl
+    rw [hc]
+    cases hasBondsCls cls' <;> simp [Function.comp_def]
+  rw [h1, deepCopy_faithful hw]
+
+/-- the identities of such a copy are new, except the containers nested in the `attrib=` dictionary, which are the caller's -/
+theorem copyAs_reach (n cls' : Nat) (ov : Override) (src : MolO) :
+    ∀ x ∈ (copyAs repaired n cls' ov src).reach, n ≤ x ∨ x ∈ ov.attrib.ids := by
+  intro x hx
+  have hf1 : repaired.shallowMolAttrib = false := rfl
+  have hf2 : repaired.zeroCharges = false := rfl
+  simp only [copyAs, deepCopy, copyMolAttrib, hf1, hf2, Bool.false_eq_true, if_false, MolO.reach, Box.ids,
+    Box.renum, List.mem_cons, List.mem_append, mem_ids_append] at hx
+  rcases hx with hx | (((hx | hx | hx) | hx | hx) | hx | hx) | hx
+  · exact Or.inl (by omega)
+  · exact Or.inl (by omega)
+  · exact Or.inl (by have := ids_renum_ge _ _ _ hx; omega)
+  · exact Or.inr hx
+  · exact Or.inl (by omega)
+  · exact Or.inl (by have := copyAtoms_reach_ge _ _ _ _ hx; omega)
+  · exact Or.inl (by omega)
+  · split at hx
+    · exact Or.inl (by have := copyBonds_reach_ge _ _ _ _ _ _ hx; omega)
+    · simp at hx
+  · simp only [List.mem_map, List.mem_range] at hx
+    obtain ⟨a, ⟨j, _, rfl⟩, rfl⟩ := hx
+    exact Or.inl (by simp only; omega)
+
+/-- **separate**: the result shares no mutable object with the source (the `attrib=` dictionary passed by the
+caller not being part of the source). -/
+theorem copyAs_separate {n cls' : Nat} {src : MolO} (hb : Below n src) (ov : Override)
+    (hov : ∀ x ∈ ov.attrib.ids, x ∉ src.reach) :
+    ∀ x, x ∈ (copyAs repaired n cls' ov src).reach → x ∉ src.reach := by
+  intro x hx hs
+  rcases copyAs_reach n cls' ov src x hx with h | h
+  · have := hb x hs; omega
+  · exact hov x h hs
+
+/-- **independent**, and "never alter their sources": constructing with overrides returns a new object — the source
+is not an output of the route — and any list of mutations of one side leaves the other side unchanged. -/
+theorem copyAs_independent {n cls' : Nat} {src : MolO} (hb : Below n src) (ov : Override)
+    (hov : ∀ x ∈ ov.attrib.ids, x ∉ src.reach) (μs : List Mutation) :
+    ((∀ μ ∈ μs, μ.target ∈ (copyAs repaired n cls' ov src).reach) → applyAll μs src = src) ∧
+    ((∀ μ ∈ μs, μ.target ∈ src.reach) →
+      applyAll μs (copyAs repaired n cls' ov src) = copyAs repaired n cls' ov src) :=
+  ⟨fun h => applyAll_frame μs src (fun μ hm => copyAs_separate hb ov hov _ (h μ hm)),
+   fun h => applyAll_frame μs _ (fun μ hm hx => copyAs_separate hb ov hov _ hx (h μ hm))⟩
+
+/-! ## concatenate of any number of structures -/
+
+def shiftAll : Nat → List MolObs → List BondObs
+  | _, [] => []
+  | off, o :: os => o.bonds.map (shiftBond off) ++ shiftAll (off + o.atoms.length) os
+
+/-- what `concatenate(s1, …, sk)` documents, on observations -/
+def concatObsN (cls : Nat) (os : List MolObs) : MolObs :=
+  { cls := cls,
+    scalars := [0, (os.map (fun o => o.scalars.getD 1 0)).sum, (os.map (fun o => o.scalars.getD 2 0)).sum - 1],
+    attrib := .nil,
+    atoms := os.flatMap (·.atoms),
+    bonds := shiftAll 0 os,
+    arrays := (List.range (min (slotsOf cls) (minLen (os.map (fun o => o.arrays.length))))).map (fun j =>
+      os.flatMap (fun o => (o.arrays[j]?).getD [])) }
+
+theorem concatBondsObs_eq (ss : List MolO) (hw : ∀ s ∈ ss, WF s) : ∀ off,
+    concatBondsObs off ss = shiftAll off (ss.map observe) := by
+  induction ss with
+  | nil => intro off; rfl
+  | cons s ss ih =>
+    intro off
+    simp only [concatBondsObs, List.map_cons, shiftAll]
+    rw [ih (fun t ht => hw t (List.mem_cons_of_mem _ ht)), observe_bonds_T (hw s (List.mem_cons_self))]
+    simp only [List.map_map, observe, List.length_map]
+    congr 1
+
+/-- **faithful** for `concatenate` of any number of well-formed sources, repetitions allowed: every atom and bond of
+every operand is in the result, in order, with its fields, attributes, parent and index (bond ends shifted by the
+atoms before), arrays stacked. -/
+theorem concatN_faithful {n cls : Nat} (ss : List MolO) (hw : ∀ s ∈ ss, WF s) :
+    observe (concatN repaired n cls ss) = concatObsN cls (ss.map observe) := by
+  have hb := obs_concatBonds n ss (fun s hs => (hw s hs).bondEnds) [] (n + 2 + 1)
+    (n + 2 + 1 + totalAtomsSize ss + 1) (by simp) (by simp)
+  simp only [List.nil_append, List.length_nil] at hb
+  have hf : repaired.zeroCharges = false := rfl
+  simp only [observe, concatN, concatObsN, hf, Bool.false_eq_true, if_false, scalarAt]
+  rw [hb, concatBondsObs_eq ss hw, obs_concatAtoms]
+  simp only [List.map_map, List.flatMap_map, Ents.strip, Function.comp_def, commonSlots, stackData]
+  congr 1
+  · -- atoms
+    have : ∀ (l : List MolO), (∀ s ∈ l, WF s) →
+        l.flatMap (fun s => s.atoms.map obsAtomT) = l.flatMap (fun a => (observe a).atoms) := by
+      intro l
+      induction l with
+      | nil => intro _; rfl
+      | cons s l ih =>
+        intro h
+        simp only [List.flatMap_cons]
+        rw [ih (fun t ht => h t (List.mem_cons_of_mem _ ht)), observe_atoms_T (h s (List.mem_cons_self))]
+    exact this ss hw
+  · -- arrays
+    have h1 : ∀ (s : MolO) (j : Nat), (observe s).arrays[j]?.getD [] = ((s.arrays[j]?).map (·.data)).getD [] := by
+      intro s j; simp [observe, List.getElem?_map]
+    have h2 : ∀ (s : MolO), (observe s).arrays.length = s.arrays.length := by
+      intro s; simp [observe]
+    simp only [h1, h2]
+
+theorem concatN_fresh (n cls : Nat) (ss : List MolO) : ∀ x ∈ (concatN repaired n cls ss).reach, n ≤ x := by
+  intro x hx
+  have hf : repaired.zeroCharges = false := rfl
+  simp only [concatN, hf, Bool.false_eq_true, if_false, MolO.reach, Box.ids, Ents.ids, List.mem_cons, List.mem_append,
+    List.not_mem_nil, or_false] at hx
+  rcases hx with hx | ((hx | hx | hx) | hx | hx) | hx
+  · omega
+  · omega
+  · omega
+  · have := concatAtoms_reach_ge _ _ _ _ hx; omega
+  · omega
+  · have := concatBonds_reach_ge _ _ _ _ _ hx; omega
+  · simp only [List.mem_map, List.mem_range] at hx
+    obtain ⟨a, ⟨j, _, rfl⟩, rfl⟩ := hx
+    simp only; omega
+
+/-- **separate** for `concatenate` of any number of operands: the product shares no mutable object with any of them. -/
+theorem concatN_separate {n cls : Nat} {ss : List MolO} (hb : ∀ s ∈ ss, Below n s) :
+    ∀ x, x ∈ (concatN repaired n cls ss).reach → ∀ s ∈ ss, x ∉ s.reach := by
+  intro x hx s hs hm
+  have := concatN_fresh n cls ss x hx
+  have := hb s hs x hm
+  omega
+
+/-- **independent** for `concatenate` of any number of operands. -/
+theorem concatN_independent {n cls : Nat} {ss : List MolO} (hb : ∀ s ∈ ss, Below n s) (μs : List Mutation) :
+    ((∀ μ ∈ μs, μ.target ∈ (concatN repaired n cls ss).reach) → ∀ s ∈ ss, applyAll μs s = s) ∧
+    ((∀ μ ∈ μs, ∃ s ∈ ss, μ.target ∈ s.reach) →
+      applyAll μs (concatN repaired n cls ss) = concatN repaired n cls ss) := by
+  refine ⟨fun h s hs => ?_, fun h => ?_⟩
+  · exact applyAll_frame μs s (fun μ hm => concatN_separate hb _ (h μ hm) s hs)
+  · apply applyAll_frame
+    intro μ hm hx
+    obtain ⟨s, hs, ht⟩ := h μ hm
+    exact concatN_separate hb _ hx s hs ht
+
 /-! ## join -/
 
 theorem map_eraseIdx' {α β} (f : α → β) : ∀ (l : List α) (i : Nat), (l.eraseIdx i).map f = (l.map f).eraseIdx i
@@ -513,6 +673,27 @@ example : (observe (concat repaired 19 5 demo demo)).bonds.map (fun b => (b.e1, 
   decide
 example : (observe (join repaired 40 5 demo (deepCopy repaired 19 demo) 2 2 [0, 2, 3] [1]
     [0, 0, 0, 0, 0, 0, 0, 0, 0, 0, 0, 0])).bonds.map (fun b => (b.e1, b.e2)) = [(0, 1), (2, 3), (1, 3)] := by decide
+
+/-- three operands, one of them twice: the bonds of every block join atoms of that block -/
+example : (observe (concatN repaired 40 5 [demo, deepCopy repaired 19 demo, demo])).bonds.map (fun b => (b.e1, b.e2)) =
+    [(0, 1), (1, 2), (3, 4), (4, 5), (6, 7), (7, 8)] := by decide
+example : sharedIds (concatN repaired 40 5 [demo, deepCopy repaired 19 demo, demo]) demo = [] := by decide
+/-- the keywords of `Molecule(demo, charge=0, mult=3, coords=…)` -/
+def demoOv : Override where
+  scalars := [none, some 0, some 3]
+  attrib := .nil
+  arrays := [some [9, 9, 9, 9, 9, 9, 9, 9, 9], none]
+  fills := [[], []]
+
+/-- charge kept (`0 or 1`), mult and coordinates replaced, charges and atoms carried over -/
+example : (observe (copyAs repaired 19 5 demoOv demo)).scalars = [7, 1, 3] ∧
+    (observe (copyAs repaired 19 5 demoOv demo)).arrays = [[9, 9, 9, 9, 9, 9, 9, 9, 9], [11, 12, 13]] ∧
+    (observe (copyAs repaired 19 5 demoOv demo)).atoms = (observe demo).atoms := by decide
+/-- `Promolecule(demo)`: atoms only; `ConformerEnsemble(demo)`: bonds kept, arrays are the defaults -/
+example : (observe (copyAs repaired 19 1 noOverride demo)).bonds = [] ∧
+    (observe (copyAs repaired 19 1 noOverride demo)).arrays = [] := by decide
+example : (observe (copyAs repaired 19 6 { noOverride with fills := [[0, 0], [5], [1]] } demo)).arrays = [[0, 0], [5], [1]] ∧
+    (observe (copyAs repaired 19 6 noOverride demo)).bonds = (observe demo).bonds := by decide
 /-- a mutation of the copy's nested attribute container changes the copy and not the source -/
 example :
     let c := deepCopy repaired 19 demo
